@@ -252,15 +252,18 @@ theorem accepts_nil_of_no_owner (w : World) (q : Query) (h : ∀ i, owners w q i
   rw [he]
   exact ⟨fun r hr => (by cases hr), fun e he => (by cases he), List.nodup_nil, (by simp)⟩
 
-/-- the loop over the entries of a kind, run over a rendered world, returns what is promised -/
-theorem entries_accept (c : Cfg) (hg : c.Good) (w : World) (hw : w.WF) (q : Query) (inodes : Inodes)
-    (ok : OwnersOK w q inodes) (es : List TEntry) (hc : ∀ e ∈ es, e ∈ canonicalEntries)
-    (hsel : ∀ ce ∈ canonicalEntries, ce ∈ es ↔ entrySelected q.kind ce = true) (hn : es.Nodup) :
-    ∃ rows, retrieveEntries c (renderWorld c.littleEndian w) inodes q.pid es [] = .ok rows
-      ∧ Accepts (expects w q) rows := by
-  obtain ⟨out, h1, h2, h3, h4⟩ := retrieveEntries_ok c (renderWorld c.littleEndian w) inodes q.pid
+/-- the loop over the entries of a kind returns what is promised for world `w`, over ANY file
+    system on which each canonical entry yields the tuples of `w`'s sockets of its class -/
+theorem entries_accept_of (c : Cfg) (fs : ProcFs) (w : World) (hws : ∀ s ∈ w.socks, s.WF) (q : Query)
+    (inodes : Inodes) (ok : OwnersOK w q inodes) (es : List TEntry) (hc : ∀ e ∈ es, e ∈ canonicalEntries)
+    (hsel : ∀ ce ∈ canonicalEntries, ce ∈ es ↔ entrySelected q.kind ce = true) (hn : es.Nodup)
+    (hER : ∀ e ∈ canonicalEntries,
+      entryRows c fs inodes q.pid e = .ok ((entrySocks w e).flatMap (sockRows inodes q.pid))) :
+    ∃ rows, retrieveEntries c fs inodes q.pid es [] = .ok rows ∧ Accepts (expects w q) rows := by
+  have hw : ∀ s ∈ w.socks, s.WF := hws
+  obtain ⟨out, h1, h2, h3, h4⟩ := retrieveEntries_ok c fs inodes q.pid
     (fun e => (entrySocks w e).flatMap (sockRows inodes q.pid)) es []
-    (fun e he => entryRows_render c hg w hw inodes ok.inv q.pid e (hc e he))
+    (fun e he => hER e (hc e he))
   refine ⟨out, h1, ?_⟩
   -- membership in the result, per socket
   have hmem : ∀ x, x ∈ out ↔ ∃ s ∈ w.socks, kindSelects q.kind s.fam s.typ = true ∧ x ∈ promisedRows w q s := by
@@ -273,9 +276,9 @@ theorem entries_accept (c : Cfg) (hg : c.Good) (w : World) (hw : w.WF) (q : Quer
       obtain ⟨s, hs, hxs⟩ := List.mem_flatMap.mp hx
       rw [sockRows_promised ok s] at hxs
       obtain ⟨hs1, hs2⟩ := List.mem_filter.mp hs
-      exact ⟨s, hs1, (selected_iff hc hsel s (hw.socks s hs1)).mp ⟨e, he, hs2⟩, hxs⟩
+      exact ⟨s, hs1, (selected_iff hc hsel s (hw s hs1)).mp ⟨e, he, hs2⟩, hxs⟩
     · rintro ⟨s, hs, hsel', hx⟩
-      obtain ⟨e, he, hin⟩ := (selected_iff hc hsel s (hw.socks s hs)).mpr hsel'
+      obtain ⟨e, he, hin⟩ := (selected_iff hc hsel s (hw s hs)).mpr hsel'
       refine ⟨e, he, ?_⟩
       rw [List.map_flatMap, entrySocks_eq]
       refine List.mem_flatMap.mpr ⟨s, List.mem_filter.mpr ⟨hs, hin⟩, ?_⟩
@@ -336,12 +339,21 @@ theorem entries_accept (c : Cfg) (hg : c.Good) (w : World) (hw : w.WF) (q : Quer
       apply List.map_congr_left
       intro s _
       rw [← sockRows_promised ok s, List.length_map]
-    have hsum := sum_partition hc hsel hn (fun s => (promisedRows w q s).length) w.socks hw.socks
+    have hsum := sum_partition hc hsel hn (fun s => (promisedRows w q s).length) w.socks hw
     simp only [hlen, List.length_nil, Nat.zero_add] at h4
     rw [hsum] at h4
     unfold expects
     rw [sum_count_expects]
     exact h4
+
+/-- the loop over the entries of a kind, run over a rendered world, returns what is promised -/
+theorem entries_accept (c : Cfg) (hg : c.Good) (w : World) (hw : w.WF) (q : Query) (inodes : Inodes)
+    (ok : OwnersOK w q inodes) (es : List TEntry) (hc : ∀ e ∈ es, e ∈ canonicalEntries)
+    (hsel : ∀ ce ∈ canonicalEntries, ce ∈ es ↔ entrySelected q.kind ce = true) (hn : es.Nodup) :
+    ∃ rows, retrieveEntries c (renderWorld c.littleEndian w) inodes q.pid es [] = .ok rows
+      ∧ Accepts (expects w q) rows :=
+  entries_accept_of c (renderWorld c.littleEndian w) w hw.socks q inodes ok es hc hsel hn
+    (fun e he => entryRows_render c hg w hw inodes ok.inv q.pid e he)
 
 theorem kind_in_connKinds {c : Cfg} (ht : c.TmapGood) {k : String} (hk : k ∈ kinds) : k ∈ c.connKinds := by
   simpa using List.all_eq_true.mp ht.2 k hk
